@@ -89,7 +89,7 @@ def run_family(ctx, family):
         "oracle_table_problems": oracle_problems[:5],
         "rule": "systematic histories first (every macro of the family x 10 kinds of context expression, payload rotating, on three "
                 "scope depths, on the root context and on a sub-context, created before set_locale(ar), set_locale_untracked(ru) and "
-                "set_locale(fr) through another view, half mounted in a render effect), then random histories (<=4 contexts, <=40 "
+                "set_locale(fr) through another view, half mounted in a render effect), then random histories (<=6 contexts, <=40 "
                 "ops) whose accessors are random flavours of the family; expected text = fixed-locale macro of the model's "
                 "current locale",
         "by_macro": stat, "by_context_expression": kinds, "by_payload": counts,
